@@ -10,8 +10,17 @@ package transpiler
 // of the window start and from above by a day not earlier than the UTC day of the
 // window end: a series that only has rows on the last day of the window (for
 // instance in the first minutes after midnight) must not be missed.
-//@ func (*StreamSelectorPlanner).Process [C13]
+// Every matcher of the selector reaches the fingerprint selection: the pseudo-label /
+// service_name conditions are and-ed into the WHERE whenever there is at least ONE of
+// them (a selector such as {service_name="api"} has exactly one), and they are in
+// place before the label conditions are added.
+//@ spec fn andOfAll(c sql.SQLCondition, ms []sql.SQLCondition) bool = typeis(c, "*sql.LogicalOp") && unbox(c, "*sql.LogicalOp").fn == "and" && len(unbox(c, "*sql.LogicalOp").clauses) == len(ms)
+//@ func (*StreamSelectorPlanner).getMatchers
+//@   modifies nothing
+//@ func (*StreamSelectorPlanner).Process [C13,C17]
 //@   flag checks=-index,-assert
+//@   check a-single-pseudo-label-matcher-is-not-dropped: result1 == nil && len(matchers.globalMatchers) > 0 && len(matchers.kvMatchers) == 0 ==> len(whereArgs) == 1 && andOfAll(whereArgs[0], matchers.globalMatchers)
+//@   at sql_select.Or$ pseudo-label-matchers-are-in-place-before-the-label-matchers: len(matchers.globalMatchers) > 0 ==> len(whereArgs) == 1 && andOfAll(whereArgs[0], matchers.globalMatchers)
 //@   at sql_select.Ge lower-date-covers-window-start: isDateCol(arg0) ==> fmtDay <= fdiv(ctx.From.UnixNano(), 86400000000000)
 //@   at sql_select.Le upper-date-covers-window-end: isDateCol(arg0) ==> fmtDay >= fdiv(ctx.To.UnixNano(), 86400000000000)
 //@ func (*GenericLabelsPlanner)._process [C13]
